@@ -36,11 +36,15 @@ ValBytes(s, c, p) ==
                    ELSE IF i % s = 0 THEN 1 ELSE 0            \* quiet NaN with payload (float/double)
        [] OTHER -> IF i % s = 0 THEN 1 ELSE 0 ])              \* 1 / smallest subnormal
 Counts == IF Big THEN {0, 1, 2, 3, 7, 100} ELSE {0, 1, 2, 3, 7}
+\* structured counts: powers of two and their neighbours (block-wise conversion loops, 8-bit counters of elements / pairs / quadlets)
+SCounts == {8, 15, 16, 17, 31, 32, 33, 63, 64, 65, 127, 128, 129, 192, 255, 256, 257, 300, 511, 512, 513, 768, 1000, 1023, 1024, 1025}
+\* large values are combined with one path and one buffer offset only (volume)
+IsLarge(val) == Len(val) > 64
 ValuesOf(dt) ==
   IF ~KnownType(dt) THEN { ValBytes(1, 4, 2) }
   ELSE IF IsVar(dt)
     THEN { ValBytes(ElemSize(dt), c, p) : c \in Counts, p \in {1, 2, 5} }
-         \cup { ValBytes(ElemSize(dt), 300, 2) }                    \* more than 255 elements, for every element width
+         \cup { ValBytes(ElemSize(dt), c, 2) : c \in SCounts }      \* element counts around block sizes and counter widths, every element width
          \cup (IF Big THEN { ValBytes(ElemSize(dt), 65535 \div ElemSize(dt), 2) } ELSE {})
     ELSE { ValBytes(ElemSize(dt), 1, p) : p \in 0..6 }
 
@@ -77,7 +81,12 @@ GInit ==
                 a == IF init = 1 THEN InitSem(a0, h, "Vss") ELSE a0
                 post == PadMsg(a, h, vlen) IN
             \E img \in { FlipBit(post, p) : p \in 0..31 }
-                       \cup (IF VPad(vlen) > 0 THEN { [i \in 1..Len(post) |-> IF i > h + vlen /\ i <= h + vlen + VPad(vlen) THEN 238 ELSE post[i]] \o << >> } ELSE {}) :
+                       \cup (IF VPad(vlen) > 0 THEN { [i \in 1..Len(post) |-> IF i > h + vlen /\ i <= h + vlen + VPad(vlen) THEN 238 ELSE post[i]] \o << >> } ELSE {})
+                       \* a message finalised at a shorter length inside the same last quadlet, then grown (appended bytes and whatever
+                       \* followed them are not zero any more), now finalised again
+                       \cup { LET prev == PadMsg(a, h, vlen - d) IN
+                              [i \in 1..Len(prev) |-> IF i > h + vlen - d /\ i <= h + vlen + VPad(vlen) THEN 51 ELSE prev[i]] \o << >>
+                              : d \in { e \in 1..3 : e + VPad(vlen) <= 3 /\ vlen - e >= 12 } } :
               /\ job = [mode |-> 0, dt |-> 0, path |-> << >>, val |-> << >>]
               /\ hb = [b \in Buf |-> h]
               /\ mem = [b \in Buf |-> img]
@@ -86,6 +95,7 @@ GInit ==
             LET total == h + VH + Len(PathWire(mode, path)) + Len(DataWire(dt, val)) + 3
                 a == HdrWith(Pat(k + 1, total), h, mode, dt)
                 enc == PutData(PutPath(a, h, path), h, val) IN
+            /\ IsLarge(val) => (h = 0 /\ k = 1 /\ path = (IF mode = 0 THEN PathBytes(4) ELSE <<0,0,0,1>>))
             /\ job = [mode |-> mode, dt |-> dt, path |-> path, val |-> val]
             /\ hb = [b \in Buf |-> h]
             /\ mem = [b \in Buf |-> IF Scn = "encode" THEN a ELSE enc]
